@@ -50,12 +50,13 @@ func (r layRow) val(l int) int {
 }
 
 type eng struct {
-	env     *core.Env
-	rep     *core.Report
-	samples *core.Samples
-	mu      sync.Mutex
-	model   []map[string]interface{}
-	home    string
+	formShift int
+	env       *core.Env
+	rep       *core.Report
+	samples   *core.Samples
+	mu        sync.Mutex
+	model     []map[string]interface{}
+	home      string
 }
 
 func (e *eng) note(name string, r *core.TLCResult, what string) {
@@ -370,6 +371,9 @@ func (e *eng) varCase(r layRow, i int) {
 }
 
 // undefined variable at command position k of a 3-command task
+// the ways a command can refer to an undefined variable
+var undefForms = []string{"{{.nosuch}}", "{{ if .nosuch }}yes{{ end }}", "{{ with .nosuch }}{{ . }}{{ end }}", "{{ print .nosuch }}", "{{ printf \"%v\" .nosuch }}", "{{ .nosuch | printf \"%s\" }}", "{{ .nosuch.deeper }}"}
+
 func (e *eng) undefinedAt(k int, allow bool) {
 	d := e.env.Sub("undef")
 	trace := filepath.Join(d, "trace")
@@ -381,7 +385,8 @@ func (e *eng) undefinedAt(k int, allow bool) {
 	y.WriteString("    command:\n")
 	for c := 1; c <= 3; c++ {
 		if c == k {
-			fmt.Fprintf(&y, "      - echo \"c%d {{.nosuch}}\" >> %s\n", c, trace)
+			form := undefForms[(k+map[bool]int{false: 0, true: 3}[allow]+e.formShift)%len(undefForms)]
+			fmt.Fprintf(&y, "      - |\n        echo 'c%d %s' >> %s\n", c, form, trace)
 		} else {
 			fmt.Fprintf(&y, "      - echo c%d >> %s\n", c, trace)
 		}
@@ -525,6 +530,32 @@ func (e *eng) result(evals, nontrivial int, rule string, extra map[string]interf
 	}}
 }
 
+// taskNameParallel: several tasks without any env of their own run at the same time; each command
+// must see its own task's name (TASK_NAME is set on a per-run copy of the environment).
+func (e *eng) taskNameParallel(k int) {
+	d := e.env.Sub("tname")
+	out := filepath.Join(d, "out")
+	_ = os.MkdirAll(out, 0o755)
+	var y strings.Builder
+	y.WriteString("tasks:\n")
+	for i := 1; i <= k; i++ {
+		fmt.Fprintf(&y, "  pt%d:\n    command:\n      - sleep 0.0%d\n      - /bin/echo \"$TASK_NAME\" > %s/pt%d\n", i, i%3+1, out, i)
+	}
+	y.WriteString("pipelines:\n  p:\n")
+	for i := 1; i <= k; i++ {
+		fmt.Fprintf(&y, "    - task: pt%d\n", i)
+	}
+	_ = ioutil.WriteFile(filepath.Join(d, "tasks.yaml"), []byte(y.String()), 0o644)
+	res := e.run(d, nil, "--raw", "p")
+	for i := 1; i <= k; i++ {
+		b, _ := ioutil.ReadFile(filepath.Join(out, fmt.Sprintf("pt%d", i)))
+		if got := strings.TrimSpace(string(b)); res.Exit != 0 || got != fmt.Sprintf("pt%d", i) {
+			e.rep.Add(core.Finding{Prop: "C09", Key: "C09:env:task-name-of-another-task", What: fmt.Sprintf("%d tasks without env running at the same time: the command of pt%d saw TASK_NAME=%q (exit %d)", k, i, got, res.Exit), Detail: map[string]interface{}{"yaml": y.String()}})
+			return
+		}
+	}
+}
+
 // CheckC09 is the engine behind C09.
 func CheckC09(env *core.Env, rep *core.Report) *core.Result {
 	e := &eng{env: env, rep: rep, samples: core.NewSamples(10), home: env.Sub("home")}
@@ -543,6 +574,10 @@ func CheckC09(env *core.Env, rep *core.Report) *core.Result {
 	var n int64
 	core.Parallel(len(envRows), 16, func(i int) { e.envCase(envRows[i], i); atomic.AddInt64(&n, 1) })
 	core.Parallel(len(dirRows)*2, 16, func(i int) { e.dirCase(dirRows[i/2], i%2 == 1); atomic.AddInt64(&n, 1) })
+	for r := 0; r < map[bool]int{false: 6, true: 60}[env.Thorough()]; r++ {
+		e.taskNameParallel(3 + r%6)
+		n++
+	}
 	return e.result(int(n), int(n)-8, "every non-empty subset of the six environment levels defining X (63) x values ascending/descending with the level x run directly / as a stage, and every subset of the dir levels (8) x direct/stage x started in the project root / a sub-directory, as enumerated by LayersGen.tla with the expected winner; each is a generated project run through the binary (echo $X, $TASK_NAME, an untouched parent variable; pwd in before, command, after)",
 		map[string]interface{}{"env_cases": len(envRows), "dir_cases": len(dirRows) * 2})
 }
@@ -582,10 +617,13 @@ func CheckC10(env *core.Env, rep *core.Report) *core.Result {
 	}
 	var n int64
 	core.Parallel(len(varRows), 16, func(i int) { e.varCase(varRows[i], i); atomic.AddInt64(&n, 1) })
-	for k := 1; k <= 3; k++ {
-		e.undefinedAt(k, false)
-		e.undefinedAt(k, true)
-		n += 2
+	for shift := 0; shift < len(undefForms); shift++ {
+		e.formShift = shift
+		for k := 1; k <= 3; k++ {
+			e.undefinedAt(k, false)
+			e.undefinedAt(k, true)
+			n += 2
+		}
 	}
 	core.Parallel(len(sel), 16, func(i int) {
 		form := "root"
@@ -623,6 +661,10 @@ func (r *recRunner) Run(t *task.Task) error {
 	if t.Env != nil {
 		m := t.Env.Map()
 		obs["V"], obs["A"] = fmt.Sprint(m["V"]), fmt.Sprint(m["A"])
+		obs["P"] = ""
+		if p, ok := m["P"]; ok {
+			obs["P"] = fmt.Sprint(p)
+		}
 	}
 	if t.Variables != nil {
 		m := t.Variables.Map()
@@ -657,7 +699,8 @@ func (e *eng) stageAPI(c stgCase, i int) {
 	for s := 1; s <= c.NS; s++ {
 		st := &scheduler.Stage{Name: fmt.Sprintf("s%d", s), Task: t0, Variables: variables.FromMap(map[string]string{".Stage.Name": fmt.Sprintf("s%d", s)})}
 		if hasS(c.Ov[s-1], "env") {
-			st.Env = variables.FromMap(map[string]string{"V": fmt.Sprintf("v%d", s)})
+			// V overrides the task's own value, P is defined at stage level only
+			st.Env = variables.FromMap(map[string]string{"V": fmt.Sprintf("v%d", s), "P": fmt.Sprintf("p%d", s)})
 		}
 		if hasS(c.Ov[s-1], "vars") {
 			st.Variables.Set("w", fmt.Sprintf("w%d", s))
@@ -702,9 +745,10 @@ func (e *eng) stageAPI(c stgCase, i int) {
 			add("stage-not-run", fmt.Sprintf("stage s%d was not handed to the Runner", s))
 			continue
 		}
-		want := map[string]string{"V": "v0", "A": "a0", "w": "w0", "B": "b0", "dir": "/d0"}
+		want := map[string]string{"V": "v0", "A": "a0", "w": "w0", "B": "b0", "dir": "/d0", "P": ""}
 		if hasS(c.Ov[s-1], "env") {
 			want["V"] = fmt.Sprintf("v%d", s)
+			want["P"] = fmt.Sprintf("p%d", s)
 		}
 		if hasS(c.Ov[s-1], "vars") {
 			want["w"] = fmt.Sprintf("w%d", s)
@@ -712,7 +756,7 @@ func (e *eng) stageAPI(c stgCase, i int) {
 		if hasS(c.Ov[s-1], "dir") {
 			want["dir"] = fmt.Sprintf("/d%d", s)
 		}
-		for _, k := range []string{"V", "A", "w", "B", "dir"} {
+		for _, k := range []string{"V", "A", "w", "B", "dir", "P"} {
 			if o[k] != want[k] {
 				kind := "override-of-another-stage-visible"
 				if k == "A" || k == "B" {
@@ -739,8 +783,11 @@ func (e *eng) stageBin(c stgCase, i int) {
 		_ = os.MkdirAll(filepath.Join(d, fmt.Sprintf("d%d", s)), 0o755)
 	}
 	var y strings.Builder
-	fmt.Fprintf(&y, "tasks:\n  t:\n    dir: %s\n    env:\n      V: v0\n      A: a0\n    variables:\n      w: w0\n      B: b0\n", yq(filepath.Join(d, "d0")))
-	y.WriteString("    command:\n      - sleep 0.0$((RANDOM % 5))\n      - |\n        echo \"$V|$A|{{.w}}|{{.B}}|$(pwd)\" > \"$OUTDIR/{{with index . \".Stage.Name\"}}{{.}}{{else}}direct{{end}}\"\n")
+	// the task is bound to a named context (one shared object) whose before hook takes a moment, and
+	// has a variable whose value is itself a template over a variable that stages override
+	y.WriteString("contexts:\n  cx:\n    env:\n      CXE: c\n    before: [\"sleep 0.02\"]\n")
+	fmt.Fprintf(&y, "tasks:\n  t:\n    context: cx\n    dir: %s\n    env:\n      V: v0\n      A: a0\n    variables:\n      w: w0\n      B: b0\n      G: \"g-{{.w}}\"\n", yq(filepath.Join(d, "d0")))
+	y.WriteString("    command:\n      - sleep 0.0$((RANDOM % 5))\n      - |\n        echo \"$V|$A|{{.w}}|{{.B}}|$(pwd)|{{.G}}|$P\" > \"$OUTDIR/{{with index . \".Stage.Name\"}}{{.}}{{else}}direct{{end}}\"\n")
 	y.WriteString("pipelines:\n  p:\n")
 	for s := 1; s <= c.NS; s++ {
 		fmt.Fprintf(&y, "    - name: s%d\n      task: t\n", s)
@@ -752,7 +799,7 @@ func (e *eng) stageBin(c stgCase, i int) {
 			fmt.Fprintf(&y, "      depends_on: [%s]\n", strings.Join(ds, ", "))
 		}
 		if hasS(c.Ov[s-1], "env") {
-			fmt.Fprintf(&y, "      env:\n        V: v%d\n", s)
+			fmt.Fprintf(&y, "      env:\n        V: v%d\n        P: p%d\n", s, s)
 		}
 		if hasS(c.Ov[s-1], "vars") {
 			fmt.Fprintf(&y, "      variables:\n        w: w%d\n", s)
@@ -801,7 +848,11 @@ func (e *eng) stageBin(c stgCase, i int) {
 				dir = fmt.Sprintf("d%d", s)
 			}
 		}
-		want := fmt.Sprintf("%s|a0|%s|b0|%s", v, w, filepath.Join(d, dir))
+		pk := ""
+		if s > 0 && hasS(c.Ov[s-1], "env") {
+			pk = fmt.Sprintf("p%d", s)
+		}
+		want := fmt.Sprintf("%s|a0|%s|b0|%s|g-%s|%s", v, w, filepath.Join(d, dir), w, pk)
 		if got[name] != want {
 			kind := "override-of-another-stage-visible"
 			if s == 0 {
